@@ -4,7 +4,8 @@ from . import cfggen
 PKG_ALIASES = {"al": "gv.test/fix/alpha", "ot": "example.com/other"}
 CTORS = ["NewA", "NewB", "MakeC", "al.NewA", "al.Build", "ot.Provide", "\"example.com/lib\".New"]
 LITS = [0, 1, -7, 42, True, False, None, 1.5, "", "plain", "two words", "1", "true", "é\"q\"\\", cfggen.Raw("18446744073709551615"), cfggen.Raw("-9223372036854775808"),
-        cfggen.Raw("3.141592653589793"), cfggen.Raw("16777217.0"), cfggen.Raw("1e300"), cfggen.Raw("0.1"), cfggen.Raw("1e-7"), cfggen.Raw("-2.2250738585072014e-308")]
+        cfggen.Raw("3.141592653589793"), cfggen.Raw("16777217.0"), cfggen.Raw("1e300"), cfggen.Raw("0.1"), cfggen.Raw("1e-7"), cfggen.Raw("-2.2250738585072014e-308"), cfggen.Raw("-0.0"), cfggen.Raw(".inf"), cfggen.Raw("-.inf"), cfggen.Raw(".nan"),
+        "$gontainer ", " $gontainer", "$gontainerX", " @s0", "!valueX", "nil", "1.5", "false", "42", "@", "!tagged", "!value"]
 
 
 class RtGen:
@@ -39,7 +40,7 @@ class RtGen:
         if k < 0.25 and lower:
             return "@" + r.choice(lower)
         if k < 0.35:
-            ok = [t for t in self.tags if self.carriers[t] and max(self.carriers[t]) < i]
+            ok = [t for t in self.tags if self.carriers[t] and max(self.carriers[t]) < i and t not in getattr(self, "own_tags", ())]
             if ok:
                 return "!tagged " + r.choice(ok)
         if k < 0.42:
@@ -73,6 +74,8 @@ class RtGen:
                 svcs[n] = {"todo": True}
                 continue
             sv = {}
+            # the tags of this service are decided first: it never requests a tag it carries itself (that would be a cycle)
+            self.own_tags = set(r.sample(self.tags, r.randint(1, len(self.tags)))) if self.tags and r.random() < self.w["tags"] else set()
             if r.random() < self.w["value_services"]:
                 sv["value"] = r.choice(["&MyStruct{}", "&al.MyStruct{}", "MyStruct{}"])
                 ptr = sv["value"].startswith("&")
@@ -93,9 +96,10 @@ class RtGen:
                     if m == "WithY":
                         c.append(True)
                     sv["calls"].append(c)
-            if self.tags and r.random() < self.w["tags"]:
-                ts = r.sample(self.tags, r.randint(1, len(self.tags)))
-                sv["tags"] = [t if r.random() < 0.4 else {"name": t, "priority": r.choice([0, 1, -5, 100, 7, 7])} for t in ts]
+            if self.own_tags:
+                ts = sorted(self.own_tags)
+                r.shuffle(ts)
+                sv["tags"] = [t if r.random() < 0.4 else {"name": t, "priority": r.choice([0, 1, -5, 100, 7, 7, 128, -129, 70000, 2147483648, 9223372036854775807, -9223372036854775808, 65536 + 7])} for t in ts]
                 for t in ts:
                     self.carriers[t].append(i)
             if r.random() < self.w["scope"]:
@@ -116,14 +120,17 @@ class RtGen:
                     lo = min(self.carriers[t])
                     for _ in range(r.randint(1, 2)):
                         args = []
+                        self.own_tags = {t}
                         for _ in range(r.randint(0, 2)):
                             k = r.random()
                             if k < 0.3 and lo > 0:
                                 args.append("@s%d" % r.randrange(lo))
-                            elif k < 0.6:
+                            elif k < 0.5:
                                 args.append(self.pattern(names))
-                            else:
+                            elif k < 0.7:
                                 args.append(r.choice(LITS))
+                            else:
+                                args.append(self.arg(lo, names))     # $gontainer, !value, !tagged of a tag carried only by earlier services
                         decs.append({"tag": t, "decorator": r.choice(["Decorate", "al.Wrap", "Wrap"]), "arguments": args})
         if decs:
             # declaration order interleaves the tags (decorators of a service carrying several tags apply in declaration order)
